@@ -166,8 +166,22 @@ Lemma enc_highlight_inner cs lv msg :
      end) cs = enc_chunks cs lv msg.
 Proof. induction cs as [|c cs IH]; [reflexivity|]. cbn [enc_chunks flat_map]. rewrite IH. reflexivity. Qed.
 
+(* the writer calls of a highlighted group before its format spec is applied: the level's
+   style request, the group's own calls, a reset (nothing at DEBUG) *)
+Definition group_events (cs : list chunk) (lv : level) (msg : bytes) : list ev :=
+  match highlight_style lv with
+  | Some st => EvStyle st :: enc_chunks cs lv msg ++ [EvStyle style_new]
+  | None => enc_chunks cs lv msg
+  end.
+
+Theorem highlight_group p cs lv msg :
+  enc_chunk (CHighlight p cs) lv msg = apply_params p (group_events cs lv msg).
+Proof.
+  cbn [enc_chunk]. rewrite enc_highlight_inner. reflexivity.
+Qed.
+
 Theorem highlight_reset colour cs lv msg :
-  render colour (enc_chunk (CHighlight cs) lv msg) =
+  render colour (enc_chunk (CHighlight no_params cs) lv msg) =
   match highlight_style lv with
   | Some st =>
     (if colour then sgr_bytes st else [])
@@ -176,12 +190,82 @@ Theorem highlight_reset colour cs lv msg :
   | None => render colour (enc_chunks cs lv msg)
   end.
 Proof.
-  cbn [enc_chunk]. rewrite enc_highlight_inner.
+  rewrite highlight_group. unfold group_events. cbn [apply_params no_params p_min p_max].
   destruct (highlight_style lv) as [st|]; [|reflexivity].
   change (EvStyle st :: enc_chunks cs lv msg ++ [EvStyle style_new])
     with ([EvStyle st] ++ enc_chunks cs lv msg ++ [EvStyle style_new]).
   rewrite !render_app. unfold render at 1 3. cbn [map concat render_ev]. rewrite !app_nil_r.
   reflexivity.
+Qed.
+
+(* ---- format specs keep every style request, in order ---- *)
+
+Fixpoint styles_of (evs : list ev) : list style :=
+  match evs with
+  | [] => []
+  | EvBytes _ :: r => styles_of r
+  | EvStyle s :: r => s :: styles_of r
+  end.
+
+Lemma styles_of_app a b : styles_of (a ++ b) = styles_of a ++ styles_of b.
+Proof.
+  induction a as [|[x|s] a IH]; cbn [app styles_of]; [reflexivity|exact IH|].
+  rewrite IH. reflexivity.
+Qed.
+
+Lemma styles_of_max_width evs : forall n, styles_of (max_width n evs) = styles_of evs.
+Proof.
+  induction evs as [|[b|s] evs IH]; intros n; cbn [max_width]; [reflexivity| |].
+  - destruct (take_chars n b) as [k n']. cbn [styles_of]. apply IH.
+  - cbn [styles_of]. rewrite IH. reflexivity.
+Qed.
+
+Theorem params_keep_styles p evs : styles_of (apply_params p evs) = styles_of evs.
+Proof.
+  unfold apply_params, fill_ev.
+  destruct (p_min p) as [mn|], (p_max p) as [mx|], (p_right p);
+    rewrite ?styles_of_max_width, ?styles_of_app; cbn [styles_of]; rewrite ?app_nil_r; reflexivity.
+Qed.
+
+(* the style requests of a highlighted group are the level's style then the inner ones then a
+   reset, whatever its width / alignment spec and however long the text is *)
+Theorem highlight_styles_with_spec p cs lv msg :
+  styles_of (enc_chunk (CHighlight p cs) lv msg) =
+  match highlight_style lv with
+  | Some st => st :: styles_of (enc_chunks cs lv msg) ++ [style_new]
+  | None => styles_of (enc_chunks cs lv msg)
+  end.
+Proof.
+  rewrite highlight_group, params_keep_styles. unfold group_events.
+  destruct (highlight_style lv) as [st|]; [|reflexivity].
+  cbn [styles_of]. rewrite styles_of_app. reflexivity.
+Qed.
+
+Lemma max_width_snoc_style evs s : forall n,
+  max_width n (evs ++ [EvStyle s]) = max_width n evs ++ [EvStyle s].
+Proof.
+  induction evs as [|[b|s'] evs IH]; intros n; cbn [app max_width]; [reflexivity| |].
+  - destruct (take_chars n b) as [k n']. rewrite IH. reflexivity.
+  - rewrite IH. reflexivity.
+Qed.
+
+(* a max-width spec (the family of seeded change C18-2): on a colour-enabled stream the group
+   still opens with its style request and CLOSES with the reset, however long the text is *)
+Theorem highlight_max_width_reset p mx cs lv msg st :
+  p_min p = None -> p_max p = Some mx -> highlight_style lv = Some st ->
+  exists body,
+    render true (enc_chunk (CHighlight p cs) lv msg) = sgr_bytes st ++ body ++ sgr_bytes style_new.
+Proof.
+  intros Hmin Hmax Hst. rewrite highlight_group. unfold group_events, apply_params.
+  rewrite Hmin, Hmax, Hst.
+  change (EvStyle st :: enc_chunks cs lv msg ++ [EvStyle style_new])
+    with ((EvStyle st :: enc_chunks cs lv msg) ++ [EvStyle style_new]).
+  rewrite max_width_snoc_style. cbn [max_width].
+  exists (render true (max_width mx (enc_chunks cs lv msg))).
+  change (EvStyle st :: max_width mx (enc_chunks cs lv msg))
+    with ([EvStyle st] ++ max_width mx (enc_chunks cs lv msg)).
+  rewrite !render_app. unfold render at 1 3. cbn [map concat render_ev]. rewrite !app_nil_r.
+  rewrite <- app_assoc. reflexivity.
 Qed.
 
 (* the closing sequence of a highlighted group is a reset from any style *)
